@@ -306,8 +306,29 @@ func cmdCheck(args []string) int {
 	os.MkdirAll(filepath.Join(*verif, "replays"), 0o755)
 	for _, r := range reports {
 		if r.Err != "" {
-			fmt.Printf("BROKEN: %s: %s\n", r.Key, r.Err)
-			broken = true
+			if r.Key == "spec-lemmas" {
+				fmt.Printf("BROKEN: %s: %s\n", r.Key, r.Err)
+				broken = true
+				continue
+			}
+			// The contract of a function under this property can no longer be interpreted over the
+			// current source (a name it speaks about is gone, a construct left the supported subset, ...).
+			// On the unchanged tree this never happens (the check is kept green), so it is the result of a
+			// change to the function: the obligation "the contract applies" fails; no input can be given.
+			o := &Obligation{Name: shortKey(r.Key) + "/contract-applies", Fn: r.Key, Kind: "contract", Desc: "the contract can be interpreted over the current source: " + r.Err, Status: "undecided", Expect: "unsat"}
+			o.Result.Verdict = "error"
+			o.Result.Output = r.Err
+			nObl++
+			nViol++
+			rp := writeReplay(*verif, *prop, o, nil, nil)
+			pid := *prop
+			if pid == "" {
+				pid = "ANY"
+			}
+			line := fmt.Sprintf("VIOLATION property=%s replay=%s no-failing-input-found", pid, rp)
+			violations = append(violations, line)
+			fmt.Printf("  FAIL %-70s undecided (contract does not apply)\n        %s\n", o.Name, r.Err)
+			fmt.Println(line)
 			continue
 		}
 		if r.Key != "spec-lemmas" {
